@@ -12,6 +12,7 @@ package main
 
 import (
 	"bytes"
+	"fmt"
 	"runtime"
 	"strconv"
 	"strings"
@@ -271,4 +272,95 @@ func waitQuietAll(base map[int64]struct{}) bool {
 			time.Sleep(20 * time.Microsecond)
 		}
 	}
+}
+
+// ---- bounded calls into the code under test
+//
+// A call into the code under test may never return (an empty group whose response channel nobody closes).
+// Nothing the harness does may wait for such a call unconditionally: a harness that hangs reports nothing.
+// "Never returns" is decided the same way as everything else here: at whole-process quiescence - every
+// goroutine that did not exist before the call is parked on a channel / select / WaitGroup and the harness
+// itself is only watching - nothing can move any more, so a call that has not returned by then never will.
+// After the quiescent snapshot the harness still waits quietGrace for the call (only ever paid on a tree
+// whose call hangs), so that a wake-up by a timer of the code under test (none exists today) is not
+// mistaken for a hang.
+
+const quietGrace = 250 * time.Millisecond
+
+// quiescentOutside: one snapshot; is every goroutine outside base (and other than the caller) parked?
+func quiescentOutside(base map[int64]struct{}) bool {
+	for _, g := range allGoroutines() {
+		if _, in := base[g.ID]; in {
+			continue
+		}
+		if !g.Parked {
+			return false
+		}
+	}
+	return true
+}
+
+// await polls try() until it succeeds.  It gives up (false) when the process is quiescent outside base and
+// try() still fails after quietGrace more, or after adapterWait.
+func await(base map[int64]struct{}, try func() bool) bool {
+	deadline := time.Now().Add(adapterWait)
+	for spin := 0; ; spin++ {
+		if try() {
+			return true
+		}
+		if quiescentOutside(base) {
+			end := time.Now().Add(quietGrace)
+			for time.Now().Before(end) {
+				if try() {
+					return true
+				}
+				time.Sleep(200 * time.Microsecond)
+			}
+			return try()
+		}
+		if time.Now().After(deadline) {
+			return false
+		}
+		if spin < 50 {
+			runtime.Gosched()
+		} else {
+			time.Sleep(20 * time.Microsecond)
+		}
+	}
+}
+
+// callBounded runs fn in a goroutine of its own and reports whether it returned (and the recovered panic,
+// if it panicked).  returned=false: the call is parked for ever (its goroutine stays behind).
+func callBounded(fn func()) (returned bool, panicMsg string) {
+	return callBoundedFrom(goroutineIDs(), fn)
+}
+
+// callBoundedFrom: callBounded with the set of goroutines that existed before (and are not part of) the call
+// already known.
+func callBoundedFrom(base map[int64]struct{}, fn func()) (returned bool, panicMsg string) {
+	done := make(chan string, 1)
+	go func() {
+		defer func() {
+			if p := recover(); p != nil {
+				done <- "panic: " + fmt.Sprint(p)
+			}
+		}()
+		fn()
+		done <- ""
+	}()
+	// the usual case: the call returns at once (no snapshot needed)
+	select {
+	case panicMsg = <-done:
+		return true, panicMsg
+	case <-time.After(2 * time.Millisecond):
+	}
+	ok := await(base, func() bool {
+		select {
+		case panicMsg = <-done:
+			return true
+		default:
+			return false
+		}
+	})
+	return ok, panicMsg
 }
